@@ -20,6 +20,37 @@ VARIANTS = {
 REFCPU = "reference SM83 model /verif/harness/src/refmodel/cpu.rs (written from the public opcode tables, octal decode) is the oracle"
 
 CHECKS = {
+    "C01": {
+        "title": "translated block == interpreted block (registers, PC, SP, status, bus writes in order, device state, host integrity)",
+        "level": "exploration",
+        "rule": "cases = (ROM placement, block bytes, entry register image): the block is translated by CodeCache::translate_code_block and run through "
+                "CodeCache::call (or a register-sentinel trampoline) on core A, and interpreted by interpreter::run_code_block on an identical core B; "
+                "compared: AF BC DE HL SP PC (32-bit fields), status, hook-H1 bus-write logs (address, value, order), device/bank state digests, register-file "
+                "canaries, callee-saved host registers, worker survival. distinct_nontrivial = distinct (family, opcode/immediate/pointer-page) keys executed",
+        "phases": [
+            {"variant": "jit-dbg", "monitor": "c01", "shards": 16},
+            {"variant": "jit-rel", "monitor": "c01", "shards": 16, "tiers": ("thorough",)},
+        ],
+        # 244 unprefixed instructions (the CB prefix byte itself is not one) + 256 CB-prefixed = 500 executable encodings
+        "floors": {"quick": {"evaluations": 3_000_000, "encodings-executed-x16-flags": 500}, "thorough": {"evaluations": 20_000_000, "encodings-executed-x16-flags": 1000}},
+        "exhaustive": {"quick": False, "thorough": False},
+        "assumptions": ["the repository's interpreter is the referee (as the property states); its own conformance is C05/C06",
+                        "domain exclusions (counted): bank-register write inside a block executing from the switchable bank; blocks on which the interpreter itself panics"],
+    },
+    "C02": {
+        "title": "translated and interpreted code charge identical machine cycles",
+        "level": "exploration",
+        "rule": "same executions as C01; compared: Registers.cycles after the block in both engines (reference cycle table as third voter in the witness); "
+                "every one of the 501 encodings x 16 flag nibbles (both outcomes of every conditional) plus random multi-instruction blocks",
+        "phases": [
+            {"variant": "jit-dbg", "monitor": "c01", "shards": 16},
+            {"variant": "jit-rel", "monitor": "c01", "shards": 16, "tiers": ("thorough",)},
+        ],
+        # 244 unprefixed instructions (the CB prefix byte itself is not one) + 256 CB-prefixed = 500 executable encodings
+        "floors": {"quick": {"evaluations": 3_000_000, "encodings-executed-x16-flags": 500}, "thorough": {"evaluations": 20_000_000, "encodings-executed-x16-flags": 1000}},
+        "exhaustive": {"quick": True, "thorough": True},
+        "assumptions": ["exhaustive refers to the 501 encodings x 16 flag nibbles table; multi-instruction sums are sampled"],
+    },
     "C05": {
         "title": "interpreter data semantics vs SM83 reference",
         "level": "exploration",
